@@ -106,8 +106,26 @@ func genMsg(rng *rand.Rand) (string, func() netty.Message) {
 		for i := range bs {
 			bs[i] = pl(sz() % 1500)
 		}
+		aliased := n >= 2 && rng.Intn(3) == 0
+		perm := rng.Perm(n)
 		return "v:" + hexList(bs), func() netty.Message {
 			cp := make([][]byte, len(bs))
+			if aliased {
+				// the blocks are views of ONE backing array, laid out in a different order than they are listed, the
+				// first listed block with spare capacity behind it (fields of a packet re-ordered)
+				total := 0
+				for _, b := range bs {
+					total += len(b)
+				}
+				back := make([]byte, total+8)
+				off := 0
+				for _, i := range perm {
+					copy(back[off:], bs[i])
+					cp[i] = back[off : off+len(bs[i])]
+					off += len(bs[i])
+				}
+				return cp
+			}
 			for i := range bs {
 				cp[i] = append([]byte(nil), bs[i]...)
 			}
